@@ -12,5 +12,16 @@ CHECKS = {
         "technique": T,
     },
 }
+CHECKS["C14"] = {
+    "level": "proof",
+    "text": "Kernel-checked theorems for every assignment of success/OSError/process-death to the file-system "
+            "primitives of utils.save (destination in {old,new}, result semantics, loadability, missing/empty load is a no-op); "
+            "the real save is run under every enumerated fault (OSError injection, real os._exit in a forked child) and "
+            "compared with the model primitive by primitive.",
+    "design_ref": "DESIGN.md section 6 C14",
+    "note": "Trusted: Lean kernel, standard axioms, hand model SaveFs.lean tied by exhaustive fault enumeration; POSIX rename "
+            "atomicity, cloudpickle/gzip round trip, os.path.exists never raises.",
+    "technique": T,
+}
 _PENDING = "machinery for this property is not built yet in this commit (work in progress; see DESIGN.md section 9)"
 NOT_APPLICABLE = {f"C{i:02d}": _PENDING for i in range(1, 21) if f"C{i:02d}" not in CHECKS}
